@@ -3,6 +3,8 @@
 unparse   every file replaced by ast.unparse(ast.parse(src)): comments gone, layout / quoting / parentheses normalised
 rename    every local variable (not parameters) of every simple function gets a new spelling
 log       a `logger.debug(...)` line at the start of every function of every module that has a module-level `logger`
+noann     parameter / return annotations of every function removed, annotated locals turned into plain assignments
+          (class-level annotations stay: dataclass fields need them)
 
 A check must report exactly what it reports on the real tree (the known findings included, under the same keys).
 """
@@ -54,8 +56,39 @@ class _Log(ast.NodeTransformer):
     visit_AsyncFunctionDef = visit_FunctionDef
 
 
+class _NoAnn(ast.NodeTransformer):
+    def __init__(self):
+        self.depth = 0
+
+    def visit_FunctionDef(self, node):
+        self.depth += 1
+        for a in node.args.posonlyargs + node.args.args + node.args.kwonlyargs:
+            a.annotation = None
+        if node.args.vararg:
+            node.args.vararg.annotation = None
+        if node.args.kwarg:
+            node.args.kwarg.annotation = None
+        node.returns = None
+        self.generic_visit(node)
+        self.depth -= 1
+        return node
+
+    visit_AsyncFunctionDef = visit_FunctionDef
+
+    def visit_ClassDef(self, node):
+        d, self.depth = self.depth, 0
+        self.generic_visit(node)
+        self.depth = d
+        return node
+
+    def visit_AnnAssign(self, node):
+        if self.depth and node.value is not None and node.simple:
+            return ast.copy_location(ast.Assign(targets=[node.target], value=node.value), node)
+        return node
+
+
 def overlays(root: str) -> dict[str, dict[str, str]]:
-    un, rn, lg = {}, {}, {}
+    un, rn, lg, na = {}, {}, {}, {}
     for dp, _dn, fn in os.walk(os.path.join(root, "sharepoint2text")):
         if "tests" in dp.split(os.sep):
             continue
@@ -74,4 +107,5 @@ def overlays(root: str) -> dict[str, dict[str, str]]:
             rn[rel] = ast.unparse(_Ren().visit(ast.parse(src))) + "\n"
             if any(isinstance(n, ast.Assign) and any(isinstance(t, ast.Name) and t.id == "logger" for t in n.targets) for n in tree.body):
                 lg[rel] = ast.unparse(ast.fix_missing_locations(_Log().visit(ast.parse(src)))) + "\n"
-    return {"whole-tree-unparse": un, "whole-tree-local-rename": rn, "whole-tree-debug-log": lg}
+            na[rel] = ast.unparse(ast.fix_missing_locations(_NoAnn().visit(ast.parse(src)))) + "\n"
+    return {"whole-tree-unparse": un, "whole-tree-local-rename": rn, "whole-tree-debug-log": lg, "whole-tree-no-annotations": na}
